@@ -160,6 +160,8 @@ M = [
   "    // Step 0\n    if iters == 3 {", "    // Step 0\n    if iters >= 2 {"),
  ("c01_gamma_not_validated", "C01", "div:TransferFunction.g", "crates/jxl-image/src/color.rs",
   "            if gamma > 10_000_000 || (gamma as u64) * 8192 < 10_000_000 {\n                return Err(Error::ValidationFailed(\"Invalid gamma value\"));\n            }\n", ""),
+ ("c03_table_decoder_for_prev_channel_props", "C03", "table-on-prev-channel", "crates/jxl-modular/src/ma.rs",
+  "        if decision_prop >= 16 {\n            return None;\n        }\n", ""),
  ("c01_cluster_map_decoder_two_dists", "C01", "bound-lost", "crates/jxl-coding/src/lib.rs",
   "            Decoder::parse(bitstream, 1)?\n        };\n        decoder.begin(bitstream)?;", "            Decoder::parse(bitstream, num_dist.min(2))?\n        };\n        decoder.begin(bitstream)?;"),
 ]
